@@ -180,7 +180,7 @@ def execute(scenario, seed, overrides=None):
                     e["_c13"] = True
                     S.reg.register(e["svc"])
             before = {i: (e.created, e.ttl) for i, e in S.hm.cache.e.items()} if False else None
-            dup = len(data) <= wire.MAX_ABS and not S.hm.guards.check(rsock.label, data, t * 1000.0, addr)
+            dup = len(data) <= wire.MAX_ABS and S.hm.is_duplicate(rsock.label, data, t * 1000.0, addr)
             msg, eff = S.hm.on_rx(t, rsock.label, data, v6sock=rsock.family == AF_INET6, src=addr)
             if msg is None and dup:
                 # a copy of the previous datagram is not processed again - but when it is a query, its questions were
